@@ -146,9 +146,17 @@ func (p *Program) findFunc(key string) *ssa.Function {
 	sp := p.byName[pkgName]
 	if sp == nil {
 		for _, q := range p.prog.AllPackages() {
-			if q.Pkg.Name() == pkgName || q.Pkg.Path() == pkgName {
+			if q.Pkg.Path() == pkgName {
 				sp = q
 				break
+			}
+		}
+		if sp == nil {
+			for _, q := range p.prog.AllPackages() {
+				if q.Pkg.Name() == pkgName && !strings.Contains(q.Pkg.Path(), "internal") {
+					sp = q
+					break
+				}
 			}
 		}
 	}
